@@ -103,6 +103,17 @@ fn crypt_case(ctx: &mut Ctx, key: u32, buf: &[u8]) {
     let mut back = e.clone();
     decrypt_file_data(&mut back, key);
     ctx.out.oracle(back == buf, "bytes-roundtrip", &format!("key={} data={}", key, hex(buf)));
+    // the same through slices that start at every address modulo 4 (a record behind a one-byte prefix, a payload behind an
+    // odd-length header): the result depends on the bytes and the key, never on where the slice lies in memory
+    for lead in 1..4usize {
+        let mut frame = vec![0xA5u8; lead]; frame.extend_from_slice(&e); frame.extend_from_slice(&[0x5A; 3]);
+        decrypt_file_data(&mut frame[lead..lead + e.len()], key);
+        ctx.out.oracle(frame[lead..lead + e.len()] == *buf && frame[..lead].iter().all(|b| *b == 0xA5) && frame[lead + e.len()..].iter().all(|b| *b == 0x5A),
+            "bytes-roundtrip-depends-on-slice-position", &format!("key={} data={} slice starts {} byte(s) into its buffer", key, hex(buf), lead));
+        let mut f2 = vec![0xA5u8; lead]; f2.extend_from_slice(buf); f2.extend_from_slice(&[0x5A; 3]);
+        builder.encrypt_data(&mut f2[lead..lead + buf.len()], key);
+        ctx.out.oracle(f2[lead..lead + buf.len()] == e[..], "bytes-roundtrip-depends-on-slice-position", &format!("encrypt: key={} data={} slice starts {} byte(s) into its buffer", key, hex(buf), lead));
+    }
     if buf.len() >= 4 {
         let v = u32::from_le_bytes([buf[0], buf[1], buf[2], buf[3]]);
         ctx.out.case(&format!("decdword {} {}", key, v), &format!("{:08x}", decrypt_dword(v, key)));
